@@ -52,18 +52,21 @@ func MirrorAxis(field Field, axisToMirror Axis) Field {
 	}
 
 	for atr, f := range field.Float1Functions {
+		f := f // one closure per attribute, not one shared loop variable
 		float1Functions[atr] = func(v vector3.Float64) float64 {
 			return f(newV(v))
 		}
 	}
 
 	for atr, f := range field.Float2Functions {
+		f := f
 		float2Functions[atr] = func(v vector3.Float64) vector2.Float64 {
 			return f(newV(v))
 		}
 	}
 
 	for atr, f := range field.Float3Functions {
+		f := f
 		float3Functions[atr] = func(v vector3.Float64) vector3.Float64 {
 			return f(newV(v))
 		}
